@@ -1,12 +1,172 @@
-(* C18 -- lemmas about the ReaderWriterMutex LTS (RwMutexModel.v). *)
+(* C18 -- basic lemmas about the ReaderWriterMutex LTS (RwMutexModel.v): association lists, the notification
+   functions, the frame property of a transition (a step of thread t touches only t's own table entries and the
+   notification counters of others). *)
 From Coq Require Import List Arith Bool Lia.
 Import ListNotations.
 From Muscle Require Import Conc.RwMutexModel.
 
-(* stage 1 placeholder lemma (the invariants follow in this file) *)
-Lemma find_setv_same : forall A (t : tid) (v : A) l, find t (setv t v l) = Some v.
+Definition memk {A} (t : tid) (l : list (tid * A)) : bool :=
+  match find t l with Some _ => true | None => false end.
+
+Section Assoc.
+Context {A : Type}.
+Implicit Types (l : list (tid * A)) (t k : tid) (v w : A).
+
+Lemma find_setv_same : forall t v l, find t (setv t v l) = Some v.
 Proof.
   induction l as [|[k w] r IH]; cbn [setv find].
   - rewrite Nat.eqb_refl. reflexivity.
   - destruct (Nat.eqb k t) eqn:E; cbn [find]; rewrite E; auto.
 Qed.
+
+Lemma find_setv_other : forall t k v l, k <> t -> find k (setv t v l) = find k l.
+Proof.
+  intros t k v l Hne. induction l as [|[k' w] r IH]; cbn [setv find].
+  - destruct (Nat.eqb t k) eqn:E; auto. apply Nat.eqb_eq in E. congruence.
+  - destruct (Nat.eqb k' t) eqn:E; cbn [find].
+    + apply Nat.eqb_eq in E. subst k'. destruct (Nat.eqb t k) eqn:E2; auto. apply Nat.eqb_eq in E2. congruence.
+    + destruct (Nat.eqb k' k); auto.
+Qed.
+
+Lemma find_remove_same : forall t l, find t (remove t l) = None.
+Proof.
+  induction l as [|[k w] r IH]; cbn [remove find]; auto.
+  destruct (Nat.eqb k t) eqn:E; auto. cbn [find]. rewrite E. auto.
+Qed.
+
+Lemma find_remove_other : forall t k l, k <> t -> find k (remove t l) = find k l.
+Proof.
+  intros t k l Hne. induction l as [|[k' w] r IH]; cbn [remove find]; auto.
+  destruct (Nat.eqb k' t) eqn:E; cbn [find].
+  - apply Nat.eqb_eq in E. subst k'. destruct (Nat.eqb t k) eqn:E2; auto. apply Nat.eqb_eq in E2. congruence.
+  - destruct (Nat.eqb k' k); auto.
+Qed.
+
+Lemma in_setv : forall t v l k w, In (k, w) (setv t v l) -> (k = t /\ w = v) \/ In (k, w) l.
+Proof.
+  induction l as [|[k' w'] r IH]; cbn [setv]; intros k w H.
+  - destruct H as [H|[]]. inversion H. auto.
+  - destruct (Nat.eqb k' t) eqn:E.
+    + destruct H as [H|H]; [inversion H; subst; apply Nat.eqb_eq in E; auto | right; right; auto].
+    + destruct H as [H|H]; [right; left; auto|]. destruct (IH _ _ H); auto. right. right. auto.
+Qed.
+
+Lemma in_remove : forall t l k w, In (k, w) (remove t l) -> In (k, w) l.
+Proof.
+  induction l as [|[k' w'] r IH]; cbn [remove]; intros k w H; auto.
+  destruct (Nat.eqb k' t); [right; auto|]. destruct H as [H|H]; [left; auto | right; auto].
+Qed.
+
+Lemma find_in : forall t l v, find t l = Some v -> In (t, v) l.
+Proof.
+  induction l as [|[k w] r IH]; cbn [find]; intros v H; [discriminate|].
+  destruct (Nat.eqb k t) eqn:E.
+  - apply Nat.eqb_eq in E. inversion H. subst. left. auto.
+  - right. auto.
+Qed.
+
+Lemma find_single : forall t k v w, find t [(k, v)] = Some w -> k = t /\ v = w.
+Proof.
+  intros t k v w H. cbn [find] in H. destruct (Nat.eqb k t) eqn:E; [|discriminate].
+  apply Nat.eqb_eq in E. inversion H. auto.
+Qed.
+
+Lemma find_none_remove : forall t l, find t l = None -> remove t l = l.
+Proof.
+  induction l as [|[k w] r IH]; cbn [find remove]; auto.
+  destruct (Nat.eqb k t); [discriminate|]. intros H. rewrite IH; auto.
+Qed.
+
+Lemma memk_setv_same : forall t v l, memk t (setv t v l) = true.
+Proof. intros. unfold memk. rewrite find_setv_same. reflexivity. Qed.
+
+Lemma memk_setv_other : forall t k v l, k <> t -> memk k (setv t v l) = memk k l.
+Proof. intros. unfold memk. rewrite find_setv_other; auto. Qed.
+
+Lemma memk_remove_same : forall t l, memk t (remove t l) = false.
+Proof. intros. unfold memk. rewrite find_remove_same. reflexivity. Qed.
+
+Lemma memk_remove_other : forall t k l, k <> t -> memk k (remove t l) = memk k l.
+Proof. intros. unfold memk. rewrite find_remove_other; auto. Qed.
+
+Lemma setv_not_nil : forall t v l, setv t v l <> [].
+Proof. intros t v [|[k w] r]; cbn [setv]; [discriminate|]. destruct (Nat.eqb k t); discriminate. Qed.
+
+Lemma is_nil_true : forall (l : list (tid * A)), is_nil l = true -> l = [].
+Proof. intros [|x r]; cbn; [auto|discriminate]. Qed.
+
+Lemma is_nil_false : forall (l : list (tid * A)), is_nil l = false -> l <> [].
+Proof. intros [|x r]; cbn; [discriminate|]. intros _ H. discriminate. Qed.
+
+End Assoc.
+
+Lemma find_bump : forall t (l : list (tid * nat)), find t (map bump l) = option_map S (find t l).
+Proof.
+  induction l as [|[k c] r IH]; cbn [map find bump fst snd option_map]; auto.
+  destruct (Nat.eqb k t); auto.
+Qed.
+
+Lemma memk_bump : forall t (l : list (tid * nat)), memk t (map bump l) = memk t l.
+Proof. intros. unfold memk. rewrite find_bump. destruct (find t l); reflexivity. Qed.
+
+Lemma memk_setc : forall t k c (l : list (tid * nat)), memk k (setc t c l) = memk k l.
+Proof.
+  intros. unfold setc. destruct (find t l) eqn:E; auto.
+  destruct (Nat.eq_dec k t) as [->|Hne].
+  - rewrite memk_setv_same. unfold memk. rewrite E. reflexivity.
+  - apply memk_setv_other; auto.
+Qed.
+
+(* ---- the notification functions change nothing but notification counters ---- *)
+
+Record same_shape (g g' : gst) : Prop := mkShape {
+  ss_total : g_total g' = g_total g;
+  ss_exec  : g_exec g' = g_exec g;
+  ss_pool  : g_pool g' = g_pool g;
+  ss_wr    : forall k, memk k (g_wr g') = memk k (g_wr g);
+  ss_ww    : forall k, memk k (g_ww g') = memk k (g_ww g);
+  ss_wr_nil : is_nil (g_wr g') = is_nil (g_wr g);
+  ss_ww_nil : is_nil (g_ww g') = is_nil (g_ww g)
+}.
+
+Lemma same_shape_refl : forall g, same_shape g g.
+Proof. intros. constructor; auto. Qed.
+
+Lemma notify_all_readers_shape : forall g, same_shape g (fst (notify_all_readers g)).
+Proof.
+  intros g. unfold notify_all_readers. cbn [fst]. constructor; cbn; auto.
+  - intros k. apply memk_bump.
+  - destruct (g_wr g); reflexivity.
+Qed.
+
+Lemma notify_next_writer_shape : forall g, same_shape g (fst (notify_next_writer g)).
+Proof.
+  intros g. unfold notify_next_writer. destruct (g_ww g) as [|[t c] r] eqn:E; cbn [fst].
+  - apply same_shape_refl.
+  - constructor; cbn; auto; rewrite E; auto.
+    intros k. unfold memk. cbn [find]. destruct (Nat.eqb t k); auto.
+Qed.
+
+Section WithPref.
+Variable pref : bool.
+
+Lemma notify_some_shape : forall g, same_shape g (fst (notify_some pref g)).
+Proof.
+  intros g. unfold notify_some.
+  destruct (negb (is_nil (g_wr g)) && negb (is_nil (g_ww g))).
+  - destruct pref; [apply notify_next_writer_shape | apply notify_all_readers_shape].
+  - destruct (negb (is_nil (g_wr g))); [apply notify_all_readers_shape|].
+    destruct (negb (is_nil (g_ww g))); [apply notify_next_writer_shape | apply same_shape_refl].
+Qed.
+
+Lemma maybe_notify_shape : forall g, same_shape g (fst (maybe_notify pref g)).
+Proof.
+  intros g. unfold maybe_notify. destruct (Nat.eqb (g_total g) 0 && is_nil (g_exec g)).
+  - apply notify_some_shape.
+  - apply same_shape_refl.
+Qed.
+
+End WithPref.
+
+Lemma pool_get_cases : forall p, pool_get p = (0, []) /\ p = [] \/ exists c r, p = c :: r /\ pool_get p = (c, r).
+Proof. intros [|c r]; cbn; eauto. Qed.
